@@ -29,6 +29,27 @@ Theorem C05_buffer_history_inv : forall ops s, EInv s -> EInv (bsteps s ops).
 Proof. exact bsteps_inv. Qed.
 Print Assumptions C05_buffer_history_inv.
 
+(* L1 - the working index stays within the working lines (0 <= working_index <
+   len(_working_lines)): every mutator, any arguments (negative and oversized
+   history indices and counts included), exceptions included; every sequence. *)
+Theorem C05_buffer_windex_inv : forall s o, WInv s -> WInv (eres_st (bstep s o)).
+Proof. exact bstep_winv. Qed.
+Print Assumptions C05_buffer_windex_inv.
+
+Theorem C05_buffer_history_windex_inv : forall ops s, WInv s -> WInv (bsteps s ops).
+Proof. exact bsteps_winv. Qed.
+Print Assumptions C05_buffer_history_windex_inv.
+
+(* ... which go_to_history as it stood before fix c767972 (no lower bound on the
+   index) did not satisfy: index -1 is stored as the working index, index -5
+   raises IndexError after having been stored (audit item 1). *)
+Theorem C05_go_to_history_pinned_refuted :
+  exists s, WInv s /\ EInv s /\
+    ~ WInv (eres_st (go_to_history_pinned s (-1))) /\
+    (exists s', go_to_history_pinned s (-5) = EErr E_INDEX s' /\ ewi s' = -5).
+Proof. exact go_to_history_pinned_refuted. Qed.
+Print Assumptions C05_go_to_history_pinned_refuted.
+
 (* L1 - the only exceptions a mutator raises are the declared ones *)
 Theorem C05_buffer_errors_declared : forall s o c s',
   bstep s o = EErr c s' -> c = E_ASSERT \/ c = E_READONLY.
@@ -108,7 +129,7 @@ Print Assumptions C05_escape.
 
 (* L4 - every modelled handler, through _call_handler, keeps the invariant:
    any state, any repeat count, any data, exceptions included; lifted to every
-   sequence of such keys.  _partial: 37 handler models out of the table's
+   sequence of such keys.  _partial: 38 handler models out of the table's
    handler set. *)
 Theorem C05_step_inv_partial : forall h s arg data,
   EInv s -> EInv (eres_st (call_handler h s arg data)).
@@ -211,7 +232,9 @@ Print Assumptions C05_escape_after_pending_key.
 (* ... and with TWO keys pending (first key of a three-key row; second key any
    key of the table or a key the table does not mention): never waits; a
    three-key call is _back_to_navigation, otherwise one or two keys are
-   consumed and the rest is looked at again. *)
+   consumed and the rest is looked at again: after two keys [Escape] (C05_escape);
+   after one key [k2; Escape], which is C05_escape_after_pending_key when k2 is
+   a first key of a multi-key row and C05_escape_after_non_pending_key when not. *)
 Theorem C05_escape_after_two_pending_keys : forall (v : Z -> bool) (flush : bool) (k1 k2 : Z),
   In (k1, k2) pending_pairs ->
   v a_vi_mode = true -> v a_emacs_mode = false -> v a_buffer_has_focus = true ->
@@ -219,6 +242,15 @@ Theorem C05_escape_after_two_pending_keys : forall (v : Z -> bool) (flush : bool
   escape_progress3 (match_step bindings v [k1; k2; K_Escape] flush) = true.
 Proof. exact escape_after_two_pending. Qed.
 Print Assumptions C05_escape_after_two_pending_keys.
+
+(* [k; Escape] for a key that is not the first key of any multi-key row: exactly
+   one key is called or dropped (never both, never Wait), for every valuation. *)
+Theorem C05_escape_after_non_pending_key : forall (v : Z -> bool) (flush : bool) (k : Z),
+  ~ In k first_keys ->
+  match_step bindings v [k; K_Escape] flush = DropOne \/
+  exists idx, match_step bindings v [k; K_Escape] flush = Call idx 1.
+Proof. exact escape_after_non_pending_key. Qed.
+Print Assumptions C05_escape_after_non_pending_key.
 
 Theorem C05_fresh_key_is_fresh : mem_Z fresh_key table_keys = false.
 Proof. exact fresh_key_is_fresh. Qed.
